@@ -468,10 +468,10 @@ structure Kind where
   /-- the operation is a REQUEST with terminations inside its unlock window (`estgap`) that was ACKed: the session
       (MAC, address) it establishes, or renews, is there for the terminations to end -/
   established : Option (Nat × Nat) := none
-  /-- MACs (and their addresses) whose establishment was raced by a termination that ended the session, earlier in
-      this sequence or in this operation: the clause of KF-dhcp4-establish-race is keyed to them -/
-  racedMacs : List Nat := []
-  racedAddrs : List Nat := []
+  /-- MACs whose lease (in the snapshot before the operation, or created by it) was made from a STALE circuit-id index
+      entry: the slow path took a dead lease that `leasesByCircuitID` still held for the client's lease and "renewed"
+      it (finding KF-dhcp4-stale-index-revival; the driver knows it from `staleHit` on the model) -/
+  revived : List Nat := []
   deriving Repr, DecidableEq
 
 def Kind.isTermination (k : Kind) : Bool := !k.terms.isEmpty || k.sweep || k.shutdown
@@ -516,27 +516,40 @@ def offerOnly (before : Snap) (mac : Nat) : Bool := (before.leaseOf mac).isNone 
     mechanism-specific clause holds on these two snapshots -/
 def monitor (before after : Snap) (k : Kind) : List (String × String × String) :=
   let es := ended before k
-  -- the clause of KF-dhcp4-establish-race is keyed to the MAC whose REQUEST was raced
-  let raced := fun (m : Nat) => k.racedMacs.contains m || (match k.established with
-    | some (em, _) => em == m
-    | none => false)
-  let clOf := fun (m : Nat) =>
-    if k.shutdown then "KF-dhcp4-shutdown-residue" else if raced m then "KF-dhcp4-establish-race" else "none"
+  -- KF-dhcp4-establish-race: THIS operation is a REQUEST that was ACKed and whose own inner termination ended the
+  -- requesting MAC's session (it is among the ended sessions and has no lease afterwards); the clause covers what that
+  -- mechanism leaves behind, at this operation, for that MAC / its address - nothing later, nothing about accounting
+  -- counts
+  let lost := fun (m : Nat) => match k.established with
+    | some (em, _) => em == m && es.any (fun e => e.1 == m) && (after.leaseOf m).isNone
+    | none => false
+  let clFor := fun (name : String) (m : Nat) =>
+    if k.shutdown then
+      -- KF-dhcp4-shutdown-residue: what the sessions that were live at the shutdown keep
+      if ["addr-not-returned", "nat-residue", "qos-residue", "cache-residue", "missing-stop"].contains name
+      then "KF-dhcp4-shutdown-residue" else "none"
+    else if lost m && ["nat-residue", "qos-residue", "cache-residue", "index-residue", "stop-unstarted"].contains name then
+      "KF-dhcp4-establish-race"
+    -- KF-dhcp4-stale-index-revival: the lease of this MAC was made from a stale index entry (no pool binding of its
+    -- own, the session id of the dead lease): when it ends, the old session gets a second Stop and the pool binding
+    -- the client really has is not the one that is released
+    else if k.revived.contains m && ["double-stop", "addr-not-returned"].contains name then
+      "KF-dhcp4-stale-index-revival"
+    else "none"
   let vEnd := es.foldl (fun acc (m, ip, path) =>
-    let cl := if !k.shutdown && k.racedAddrs.contains ip then "KF-dhcp4-establish-race" else clOf m
     acc ++
     (if (after.leaseOf m).isSome || after.binds m then
-       [("addr-not-returned", cl, s!"after {path} m{m} still holds a{ip} (lease or pool binding)")]
+       [("addr-not-returned", clFor "addr-not-returned" m, s!"after {path} m{m} still holds a{ip} (lease or pool binding)")]
      else if !(after.free.contains ip) && !(after.unavail.contains ip) then
-       [("addr-not-returned", cl, s!"after {path} of m{m} the address a{ip} is neither free nor quarantined")]
+       [("addr-not-returned", clFor "addr-not-returned" m, s!"after {path} of m{m} the address a{ip} is neither free nor quarantined")]
      else []) ++
     -- accounting: a session of this MAC that was open before (a Start, no Stop) must now have its Stop
     ((before.acct.filter (fun (_, am, st, sp) => am == m && st > 0 && sp == 0)).foldl (fun a2 (o, _, _, _) =>
        match after.acct.find? (fun r => r.1 == o) with
        | some (_, _, _, sp) =>
-         if sp == 0 then a2 ++ [("missing-stop", cl, s!"after {path} of m{m} session {o} has a Start and no Accounting-Stop")]
+         if sp == 0 then a2 ++ [("missing-stop", clFor "missing-stop" m, s!"after {path} of m{m} session {o} has a Start and no Accounting-Stop")]
          else a2
-       | none => a2 ++ [("missing-stop", cl, s!"the records of session {o} vanished")]) [])) []
+       | none => a2 ++ [("missing-stop", clFor "missing-stop" m, s!"the records of session {o} vanished")]) [])) []
   -- whatever the operation: an entry that no lease accounts for any more (or never did) and that was not already an
   -- orphan before the operation is residue of this operation; after a shutdown every session counts as ended
   let pathOf := fun (m : Nat) => match es.find? (fun e => e.1 == m) with
@@ -549,32 +562,33 @@ def monitor (before after : Snap) (k : Kind) : List (String × String × String)
       | none => 0
   let vNat := (after.orphanNat k.shutdown).foldl (fun acc a =>
     if (before.orphanNat false).contains a then acc else
-      acc ++ [("nat-residue", clOf (ownerOf a), s!"{pathOf (ownerOf a)}: the NAT block of a{a} is allocated and no lease holds a{a}")]) []
+      acc ++ [("nat-residue", clFor "nat-residue" (ownerOf a), s!"{pathOf (ownerOf a)}: the NAT block of a{a} is allocated and no lease holds a{a}")]) []
   let vQos := (after.orphanQos k.shutdown).foldl (fun acc a =>
     if (before.orphanQos false).contains a then acc else
-      acc ++ [("qos-residue", clOf (ownerOf a), s!"{pathOf (ownerOf a)}: the QoS policy of a{a} is installed and no lease holds a{a}")]) []
+      acc ++ [("qos-residue", clFor "qos-residue" (ownerOf a), s!"{pathOf (ownerOf a)}: the QoS policy of a{a} is installed and no lease holds a{a}")]) []
   let vMac := (after.orphanMac k.shutdown).foldl (fun acc m =>
     if (before.orphanMac false).contains m then acc else
-      acc ++ [("cache-residue", clOf m, s!"mac: {pathOf m}: subscriber_pools answers for m{m}, which has no lease")]) []
+      acc ++ [("cache-residue", clFor "cache-residue" m, s!"mac: {pathOf m}: subscriber_pools answers for m{m}, which has no lease")]) []
   let vCid := (after.orphanCid k.shutdown).foldl (fun acc c =>
     if (before.orphanCid false).contains c then acc else
-      acc ++ [("cache-residue", clOf c.1, s!"circuit: {pathOf c.1}: circuit_id_subscribers answers for m{c.1}.c{c.2}, which is not the circuit-id of a lease of m{c.1}")]) []
+      acc ++ [("cache-residue", clFor "cache-residue" c.1, s!"circuit: {pathOf c.1}: circuit_id_subscribers answers for m{c.1}.c{c.2}, which is not the circuit-id of a lease of m{c.1}")]) []
   let vHash := (after.orphanHash k.shutdown).foldl (fun acc c =>
     if (before.orphanHash false).contains c then acc else
-      acc ++ [("cache-residue", clOf c.1, s!"circuit: {pathOf c.1}: circuit_id_map answers for m{c.1}.c{c.2}, which is not the circuit-id of a lease of m{c.1}")]) []
-  let vIdx := (after.orphanIdx k.shutdown).foldl (fun acc c =>
+      acc ++ [("cache-residue", clFor "cache-residue" c.1, s!"circuit: {pathOf c.1}: circuit_id_map answers for m{c.1}.c{c.2}, which is not the circuit-id of a lease of m{c.1}")]) []
+  -- (the index is part of the Server object and goes with it: a shutdown does not make its entries residue)
+  let vIdx := (after.orphanIdx false).foldl (fun acc c =>
     if (before.orphanIdx false).contains c then acc else
-      acc ++ [("index-residue", clOf c.1, s!"{pathOf c.1}: leasesByCircuitID answers for m{c.1}.c{c.2} with a lease that is not in the lease table")]) []
+      acc ++ [("index-residue", clFor "index-residue" c.1, s!"{pathOf c.1}: leasesByCircuitID answers for m{c.1}.c{c.2} with a lease that is not in the lease table")]) []
   -- the server never writes the VLAN map, no session gets a second Stop or a Stop without a Start
   let vVlan := if after.kVlan.isEmpty then [] else
     [("cache-residue", "none", s!"vlan: vlan_subscriber_pools has entries {after.kVlan}")]
   let vAcct := after.acct.foldl (fun acc (o, m, st, sp) =>
     let was := ((before.acct.find? (fun r => r.1 == o)).map (fun r => r.2.2.2)).getD 0
     acc ++
-    (if sp > 1 && sp > was then [("double-stop", clOf m, s!"session {o} of m{m} has {sp} Accounting-Stops")] else []) ++
+    (if sp > 1 && sp > was then [("double-stop", clFor "double-stop" m, s!"session {o} of m{m} has {sp} Accounting-Stops")] else []) ++
     (if sp > 0 && st == 0 && sp > was then [("stop-unstarted", "none", s!"session {o} of m{m} has an Accounting-Stop and no Start")] else []) ++
     (if after.early.contains o && !(before.early.contains o) then
-       [("stop-unstarted", clOf m, s!"the Accounting-Stop of session {o} of m{m} was issued before its Start: the session stays open at the RADIUS server")] else [])) []
+       [("stop-unstarted", clFor "stop-unstarted" m, s!"the Accounting-Stop of session {o} of m{m} was issued before its Start: the session stays open at the RADIUS server")] else [])) []
   -- a termination that finds no session to end (the MAC has no lease any more, nothing has expired): nothing may change
   let vSecond :=
     if k.isTermination && k.established.isNone && es.isEmpty && ({ after with now := 0 } != { before with now := 0 }) then
